@@ -320,3 +320,9 @@ def Unit(i, n):
 def Expand(g, m, n):
     # the string g of the selected positions padded with 0 (identity) on the unselected ones: inverse of Compress
     return [g[MaskPos(m, n)[c]] if m[c] != 0 else 0 for c in range(n)]
+
+
+@spec('int1', 'int1', 'int1', 'int')
+def AcqOut(x, y, mask, K):
+    # the part of the symplectic sum over the first K qubits that comes from the qubits NOT selected by the (per-qubit) mask
+    return 0 if K <= 0 else AcqOut(x, y, mask, K - 1) + ((x[2 * K - 1] * y[2 * K - 2] - x[2 * K - 2] * y[2 * K - 1]) if mask[K - 1] == 0 else 0)
